@@ -1444,6 +1444,11 @@ class Exec(Engine):
             owner = self.ev1(t.value, st)
             if isinstance(owner, VRef) and isinstance(st.heap[owner.loc], HInst):
                 o = st.heap[owner.loc]
+                if o.view is not None and self.mutable_field(o.cls, t.attr):
+                    if not isinstance(v, (VInt, VBool, VStr)):
+                        raise Undecided('mutable record-list field %s.%s assigned %r' % (o.cls, t.attr, v), node)
+                    self.recfield_write(o.view[0], t.attr, o.view[1], v, st)
+                    return
                 f = dict(o.fields)
                 f[t.attr] = v
                 st.heap[owner.loc] = HInst(o.cls, f, o.view)
@@ -2050,6 +2055,17 @@ class Exec(Engine):
             f[attr] = val
             st.heap[owner.loc] = HInst(o.cls, f, o.view)
         for expr in sorted(muts):
+            if expr.startswith('field(') and expr.endswith(')'):
+                lst_txt, fname = [x.strip() for x in expr[6:-1].rsplit(',', 1)]
+                self.pure += 1
+                try:
+                    lv = self.ev1(ast.parse(lst_txt, mode='eval').body, st)
+                finally:
+                    self.pure -= 1
+                if not isinstance(lv, VRecList):
+                    raise Undecided('loop havoc of %r: not a record list' % expr, node)
+                self.recfield_havoc(lv.base, fname, st)
+                continue
             try:
                 n = ast.parse(expr[expr.index('(') + 1:-1] if expr.startswith(('obj(', 'flags(')) else expr, mode='eval').body
             except SyntaxError:
@@ -2455,6 +2471,33 @@ class Exec(Engine):
         st.ghost['__views__'][key] = ref.loc
         return ref
 
+    # ---- mutable fields of record-list elements -------------------------------------------------
+    # A contract may declare opts['mutable_fields'] = ['Cls.field', ...] (primitive fields).  Such a field of element i of a
+    # record list `base` is read as  updates applied to  fn(i),  where (fn, updates) is the list's current field state in
+    # st.ghost['__recfields__'][(base, field)]; writing through an element view appends an update; a loop that declares
+    # modifies=['field(xs, f)'] replaces fn by a fresh function (its invariant then describes it for all indices).
+    def mutable_field(self, cls, f):
+        c = self.cur_contract
+        return c is not None and ('%s.%s' % (cls, f)) in c.opts.get('mutable_fields', ())
+
+    def recfield_read(self, base, f, p, i, st):
+        fn, ups = st.ghost.get('__recfields__', {}).get((base, f), ('%s_%s' % (base.replace('!', '_'), f), ()))
+        t = self.ctx.app(self.ctx.fun(fn, [INT], sort_of(p)), i)
+        for k, v in ups:
+            t = Ite(Eq(i, k), v, t)
+        return wrap(t, p)
+
+    def recfield_write(self, base, f, i, v, st):
+        d = dict(st.ghost.get('__recfields__', {}))
+        fn, ups = d.get((base, f), ('%s_%s' % (base.replace('!', '_'), f), ()))
+        d[(base, f)] = (fn, ups + ((i, v.t),))
+        st.ghost['__recfields__'] = d
+
+    def recfield_havoc(self, base, f, st):
+        d = dict(st.ghost.get('__recfields__', {}))
+        d[(base, f)] = (self.ctx.fresh_name('%s_%s_v' % (base.replace('!', '_'), f)), ())
+        st.ghost['__recfields__'] = d
+
     def field_fn(self, base, f, p, i, st):
         from .symexec import VOptSym
         name = '%s_%s' % (base.replace('!', '_'), f)
@@ -2603,7 +2646,20 @@ class Exec(Engine):
         allowed_locs = set()
         allowed_fields = set()
         allowed_globals = set()
+        allowed_recfields = set()
         for expr in c.modifies:
+            if expr.startswith('field(') and expr.endswith(')'):
+                lst_txt, fname_ = [x.strip() for x in expr[6:-1].rsplit(',', 1)]
+                es0 = self.clause_state(entry, params)
+                self.pure += 1
+                try:
+                    lv = self.ev1(ast.parse(lst_txt, mode='eval').body, es0)
+                finally:
+                    self.pure -= 1
+                if not isinstance(lv, VRecList):
+                    raise Undecided('modifies %r: not a record list' % expr)
+                allowed_recfields.add((lv.base, fname_))
+                continue
             if expr.startswith('flags(') and expr.endswith(')'):
                 expr = expr[6:-1]       # the dict object (its REQUIRES set is a separate heap object and stays framed)
             if expr.startswith('obj(') and expr.endswith(')'):
@@ -2670,6 +2726,11 @@ class Exec(Engine):
                 return self.v_is(a, b, s)
             except Undecided:
                 return FALSE
+        rf0 = entry.ghost.get('__recfields__', {})
+        for key_, val_ in s.ghost.get('__recfields__', {}).items():
+            if rf0.get(key_) != val_ and key_ not in allowed_recfields:
+                self.oblige('frame', 'field-%s-of-the-elements-of-%s%s' % (key_[1], key_[0].split('!')[0], tag), s, FALSE, fnode,
+                            note='elements of a record list are written but the contract does not name field(%s, %s)' % key_)
         for loc, o0 in entry.heap.items():
             o1 = s.heap.get(loc)
             if o1 is o0 or loc in allowed_locs:
